@@ -23,7 +23,15 @@
 (*   - logging: the base behaviour + "It will log iterations and           *)
 (*     printing";                                                          *)
 (*   - defined / undefined tests and the default filter work on every      *)
-(*     type; copy / deepcopy / pickle give back an equivalent undefined.   *)
+(*     type; copy / deepcopy / pickle give back an equivalent undefined;   *)
+(*   - two undefined values are equal exactly when they are of the same    *)
+(*     undefined type: undefined values hash by their type ("properly      *)
+(*     hashing undefined objects", CHANGES 2.8) and equal objects must     *)
+(*     have equal hashes (Python data model), so values of two different   *)
+(*     undefined types are never equal.  Two types meet in ordinary        *)
+(*     templates: `{{ 'foo' if bar }}` without else "always returns        *)
+(*     Undefined ... regardless of the environment's undefined class"      *)
+(*     (CHANGES 2.11).                                                     *)
 (*                                                                         *)
 (* STATE MACHINE = chains of operations `x.p['q'][0] + 1`: the state is    *)
 (* the kind of the current value (still the undefined / finished), the     *)
@@ -45,7 +53,26 @@ CONSTANTS MaxDepth,     \* number of accesses that may precede the final operati
 
 Bases   == {"Undefined", "Chainable", "Debug", "Strict"}
 Origins == {"name", "attr", "item_str", "item_int", "hint"}
-Others  == {"int", "float", "str", "list", "none", "undef"}   \* "undef": a second missing name `y`
+Others  == {"int", "float", "str", "list", "none", "undef"}   \* "undef": a second missing name `y` (same type)
+\* A second undefined value that need not be of the same undefined type:
+\*   "u_<B>"  a missing name `y` of an environment whose undefined type is the plain type <B>;
+\*   "noelse" the value of an inline if-expression without else whose test is false, evaluated
+\*            in the very environment under test: always the default type.
+Foreign     == {"u_Undefined", "u_Chainable", "u_Debug", "u_Strict", "noelse"}
+UndefOthers == {"undef"} \cup Foreign
+\* the undefined type (base, logging wrapper) of such an operand
+OtherBase(base, other) ==
+    CASE other = "undef"       -> base
+      [] other = "u_Undefined" -> "Undefined"
+      [] other = "u_Chainable" -> "Chainable"
+      [] other = "u_Debug"     -> "Debug"
+      [] other = "u_Strict"    -> "Strict"
+      [] other = "noelse"      -> "Undefined"
+OtherLogging(logging, other) == other = "undef" /\ logging
+SameType(base, logging, other) ==
+    other \in UndefOthers /\ OtherBase(base, other) = base /\ OtherLogging(logging, other) = logging
+\* what an undefined value hashes by: its type
+HashKey(b, l) == <<b, l>>
 
 AccessOps  == {"getattr", "getitem_str", "getitem_int"}
 PrintOps   == {"print"}
@@ -71,12 +98,15 @@ Determined(logging, op, side, other) ==
     /\ ~(op = "mod" /\ side = "r" /\ other = "str")
     /\ ~(op = "pickle" /\ logging)
 
-Succeeds(base, op) ==
+\* strict "barks on ... all kinds of comparisons": also when it is the other operand
+StrictOperand(base, op, other) == op \in BinaryOps /\ other \in Foreign /\ OtherBase(base, other) = "Strict"
+
+Succeeds(base, op, other) ==
     \/ op \in AlwaysOps
-    \/ base # "Strict" /\ op \in LenientOps
+    \/ base # "Strict" /\ op \in LenientOps /\ ~StrictOperand(base, op, other)
     \/ base = "Chainable" /\ op \in AccessOps
 
-ValueOf(base, op, other) ==
+ValueOf(base, logging, op, other) ==
     CASE op = "print"                       -> IF base = "Debug" THEN "debug_str" ELSE "empty_str"
       [] op = "bool"                        -> "false"
       [] op = "not"                         -> "true"
@@ -84,8 +114,8 @@ ValueOf(base, op, other) ==
       [] op = "len"                         -> "zero"
       [] op \in {"contains", "in_list"}     -> "false"
       [] op = "hash"                        -> "class_hash"
-      [] op = "eq"                          -> IF other = "undef" THEN "true" ELSE "false"
-      [] op = "ne"                          -> IF other = "undef" THEN "false" ELSE "true"
+      [] op = "eq"                          -> IF SameType(base, logging, other) THEN "true" ELSE "false"
+      [] op = "ne"                          -> IF SameType(base, logging, other) THEN "false" ELSE "true"
       [] op = "defined"                     -> "false"
       [] op = "undefined"                   -> "true"
       [] op \in {"default", "default_bool"} -> "default_value"
@@ -94,7 +124,7 @@ ValueOf(base, op, other) ==
 
 \* Whose origin the error message names.  With two undefined operands Python
 \* asks the left one first, the documentation does not say: either is fine.
-Blames(op, other) == IF op \in BinaryOps /\ other = "undef" THEN "either" ELSE "self"
+Blames(op, other) == IF op \in BinaryOps /\ other \in UndefOthers THEN "either" ELSE "self"
 
 \* What the message must say about the origin of the undefined value:
 \* <<mode, fragment>>; "exact" is the documented "'foo' is undefined" form and
@@ -124,12 +154,12 @@ LogReq(logging, op) ==
     ELSE IF op \in {"print", "iter", "aiter"} THEN "required" ELSE "unspecified"
 
 Result(base, logging, origin, op, side, other) ==
-    IF Succeeds(base, op)
+    IF Succeeds(base, op, other)
     THEN [kind |-> IF op \in AccessOps THEN "self" ELSE "value",
-          val  |-> ValueOf(base, op, other),
+          val  |-> ValueOf(base, logging, op, other),
           blame |-> "nobody",
           msg  |-> Names(origin),
-          shown |-> IF ValueOf(base, op, other) = "debug_str" THEN DebugText(origin) ELSE NoText,
+          shown |-> IF ValueOf(base, logging, op, other) = "debug_str" THEN DebugText(origin) ELSE NoText,
           log  |-> LogReq(logging, op)]
     ELSE [kind |-> "raises",
           val  |-> "UndefinedError",
@@ -206,21 +236,37 @@ Reflected(m) ==
 \* Determined), so the reflected method of the undefined is used; with two
 \* undefined operands the left one's forward method is.
 MethodFor(op, side, other) ==
-    IF op \in BinaryOps /\ side = "r" /\ other # "undef" THEN Reflected(Dunder(op)) ELSE Dunder(op)
+    IF op \in BinaryOps /\ side = "r" /\ other \notin UndefOthers THEN Reflected(Dunder(op)) ELSE Dunder(op)
+
+\* Two undefined operands `v == w` / `v != w`: Python asks the left operand first, unless the
+\* type of the right one is a proper subclass of the type of the left one - then the right one
+\* is asked first.  Neither body answers NotImplemented, so whoever is asked first decides.
+\* (The types here form chains, so "proper subclass" is "its MRO properly ends with the other MRO".)
+ProperSubtype(sub, sup) ==
+    /\ Len(sub) > Len(sup)
+    /\ SubSeq(sub, Len(sub) - Len(sup) + 1, Len(sub)) = sup
+AskedFirst(mro, omro, side) ==
+    LET left  == IF side = "l" THEN mro ELSE omro
+        right == IF side = "l" THEN omro ELSE mro
+    IN IF ProperSubtype(right, left) THEN right ELSE left
 
 OpOutcome(base, logging, op, side, other) ==
     LET mro == MRO(base, logging)
-        f   == Find(mro, MethodFor(op, side, other), FALSE)
-        eq  == Find(mro, "__eq__", FALSE)
+        \* the operand whose method decides ==, != (the undefined itself unless the other is one, too)
+        amro == IF op \in {"eq", "ne"} /\ other \in UndefOthers
+                THEN AskedFirst(mro, MRO(OtherBase(base, other), OtherLogging(logging, other)), side)
+                ELSE mro
+        f   == Find(amro, MethodFor(op, side, other), FALSE)
+        eq  == Find(amro, "__eq__", FALSE)
         ga  == Find(mro, "__getattr__", FALSE)
         V(v, l) == [kind |-> "value", val |-> v, logged |-> l]
         Rz(l)   == [kind |-> "raises", val |-> "UndefinedError", logged |-> l]
         Unk     == [kind |-> "unknown", val |-> "?", logged |-> FALSE]
-        EqVal(b) == IF b = "same_class" THEN (IF other = "undef" THEN "true" ELSE "false") ELSE "?"
+        EqVal(b) == IF b = "same_class" THEN (IF SameType(base, logging, other) THEN "true" ELSE "false") ELSE "?"
     IN
     CASE op \in {"defined", "undefined", "default", "default_bool"} ->
             \* isinstance(value, Undefined): no method of the value is involved
-            V(ValueOf(base, op, other), FALSE)
+            V(ValueOf(base, logging, op, other), FALSE)
       [] op \in {"copy", "deepcopy", "pickle"} ->
             \* the protocols probe dunder attributes with getattr(); they work iff the
             \* probe is answered with AttributeError (the guard), then object's defaults apply
@@ -283,7 +329,12 @@ Access(a) ==
     /\ path' = Append(path, a)
     /\ UNCHANGED <<base, logging, origin, cur, last, res>>
 
-OthersAt(op) == IF op \in BinaryOps THEN (IF path = <<>> THEN Others ELSE DeepOthers) ELSE {"none"}
+\* a second undefined of another type is offered to == and != (the operations that do not
+\* simply fail), for the undefined a missing thing gives directly
+OthersAt(op) ==
+    IF op \in BinaryOps
+    THEN (IF path = <<>> THEN Others \cup (IF op \in {"eq", "ne"} THEN Foreign ELSE {}) ELSE DeepOthers)
+    ELSE {"none"}
 SidesOf(op)  == IF op \in BinaryOps THEN {"l", "r"} ELSE {"l"}
 
 \* the final operation of the chain (an access may be final, too)
@@ -345,8 +396,10 @@ C21_StrictRaisesWhereDocumented ==
 
 \* the chainable type is the default type except that attribute and item
 \* access hand back the undefined itself, wherever in a chain
+\* (a second undefined of a fixed other type is left out of the three "same as the other type"
+\* comparisons below: there the outcome depends on the type itself - C21_EqualityFollowsType)
 C21_ChainableOnlyDiffersInAttrItem ==
-    cur = "done" /\ base = "Chainable" =>
+    cur = "done" /\ base = "Chainable" /\ last.other \notin Foreign =>
         LET d == Result("Undefined", logging, origin, last.op, last.side, last.other)
         IN IF last.op \in AccessOps THEN res.kind = "self" /\ d.kind = "raises"
            ELSE res = d
@@ -364,7 +417,7 @@ C21_MessageNamesOrigin ==
 
 \* debug differs from the default type only in what printing gives
 C21_DebugOnlyDiffersInPrint ==
-    cur = "done" /\ base = "Debug" =>
+    cur = "done" /\ base = "Debug" /\ last.other \notin Foreign =>
         LET d == Result("Undefined", logging, origin, last.op, last.side, last.other)
         IN IF last.op \in PrintOps THEN res.val = "debug_str" /\ d.val = "empty_str" /\ res.shown = DebugText(origin)
            ELSE res = d
@@ -378,10 +431,30 @@ C21_TestsSeparateDefinedFromUndefined ==
 
 \* logging variants behave like their base and log printing and iteration
 C21_LoggingKeepsBase ==
-    cur = "done" /\ logging =>
+    cur = "done" /\ logging /\ last.other \notin Foreign =>
         LET d == Result(base, FALSE, origin, last.op, last.side, last.other)
         IN /\ res.kind = d.kind /\ res.val = d.val /\ res.msg = d.msg
            /\ (last.op \in {"print", "iter", "aiter"}) <=> (res.log = "required")
+
+\* equality of two undefined values: never at odds with hashing (equal values have equal
+\* hashes, and an undefined hashes by its type), symmetric in the operand order, `!=` is the
+\* negation of `==`, and a strict operand on either side makes the comparison fail
+C21_EqualityFollowsType ==
+    cur = "done" /\ last.op \in {"eq", "ne"} /\ last.other \in UndefOthers =>
+        LET ob   == OtherBase(base, last.other)
+            ol   == OtherLogging(logging, last.other)
+            flip == Result(base, logging, origin, last.op, IF last.side = "l" THEN "r" ELSE "l", last.other)
+            neg  == Result(base, logging, origin, IF last.op = "eq" THEN "ne" ELSE "eq", last.side, last.other)
+            equal == res.val = (IF last.op = "eq" THEN "true" ELSE "false")
+        IN /\ (res.kind = "raises") <=> ("Strict" \in {base, ob})
+           /\ res.kind = "value" =>
+                 /\ res.val \in {"true", "false"}
+                 /\ equal <=> (HashKey(base, logging) = HashKey(ob, ol))
+                 /\ flip.kind = "value" /\ flip.val = res.val
+                 /\ neg.kind = "value" /\ neg.val # res.val
+           \* the value of an else-less conditional expression is of the default type whatever
+           \* the environment's type: it equals a missing name only in a default environment
+           /\ last.other = "noelse" /\ res.kind = "value" => (equal <=> (base = "Undefined" /\ ~logging))
 
 \* the class bodies handed in by the harness, dispatched the way Python
 \* dispatches special methods, give exactly the documented table
